@@ -42,6 +42,14 @@ def _scratch():
     return d
 
 
+def _unscratch(d):
+    shutil.rmtree(d, ignore_errors=True)
+    try:
+        os.rmdir(os.path.dirname(d))   # the base, if this was its last case (stand-alone runs)
+    except OSError:
+        pass
+
+
 # ---------------------------------------------------------------------- generation
 
 def gen_op(rng, small=False):
@@ -456,7 +464,7 @@ def run_history(case):
         sim.close()
     results = {(ei, ci): _read_results(p) for ei, ci, p in resfiles}
     res = judge_history(case, models, results, events, info, outcome, garbage_applied)
-    shutil.rmtree(scratch, ignore_errors=True)
+    _unscratch(scratch)
     return res
 
 
@@ -597,7 +605,7 @@ def run_enum(case):
     filesim.record_writes(None)
     bad = compare(op, rec, tr.msgs, model)
     if bad:
-        shutil.rmtree(scratch, ignore_errors=True)
+        _unscratch(scratch)
         return dict(verdict='violation', vclass=bad[0], detail='first (computing) call under cache: ' + bad[1], digest=None)
     # entries in the order they were written; content = concatenation of their writes (all at increasing offsets)
     order = []
@@ -609,7 +617,7 @@ def run_enum(case):
             content[name] = b''
             bounds[name] = []
         if off != len(content[name]):
-            shutil.rmtree(scratch, ignore_errors=True)
+            _unscratch(scratch)
             return dict(verdict='harness', vclass='non-sequential-entry-write', detail=f'{name}: write at {off}, have {len(content[name])}')
         content[name] += data
         bounds[name].append(len(content[name]))
@@ -644,12 +652,12 @@ def run_enum(case):
                 if hist_bad:
                     bad = ('J4-history', f'resume() started from {hist_bad[0][1]} at index {hist_bad[0][0]}, expected {hist_bad[0][2]}')
                 if bad:
-                    shutil.rmtree(scratch, ignore_errors=True)
+                    _unscratch(scratch)
                     rc = copy.deepcopy(case)
                     return dict(verdict='violation', vclass=bad[0], digest=None,
                                 detail=f'after a kill at byte {b} of {len(content[name])} while writing entry #{fi} ({name}), call number {attempt} afterwards: {bad[1]}')
             sigs.append((fi, b))
-    shutil.rmtree(scratch, ignore_errors=True)
+    _unscratch(scratch)
     sig = core.sha([op_key(op), len(order), [len(content[n]) for n in order]])
     res = dict(verdict='pass', vclass=None, detail=None, digest=sig, steps=0, fired={'KILL_AT_BYTE_OFFSET_ENUMERATED': len(sigs)}, family='enum', sig=sig,
                nontrivial=bool(sigs), extra_distinct=len(sigs),
